@@ -57,6 +57,8 @@ func (o sop) String() string {
 		return fmt.Sprintf("MergeWithProto(%s%v,stream=%v,method=%v)", o.Other.Kind, o.Other.Ops, o.Stream, o.Meth)
 	case "reweight":
 		return fmt.Sprintf("Reweight(%v)", o.Factor.F)
+	case "vanish":
+		return "Reweight(2^-600) x3"
 	}
 	return o.Kind
 }
@@ -413,6 +415,16 @@ func (u *storeUnderTest) apply(op sop) string {
 		}
 		old.Clear()
 		old.Add(u.kindSafeIndex())
+	case "vanish":
+		// every weight is scaled down until it underflows to exactly 0: the store then holds nothing a float can
+		// represent and must behave as an empty one (no weight, no bins, no index range, no collapsed state)
+		for i := 0; i < 3; i++ {
+			if err := u.s.Reweight(0x1p-600); err != nil {
+				return fmt.Sprintf("Reweight(2^-600) returned %v", err)
+			}
+		}
+		u.m.Clear()
+		u.cl.label("weights-underflowed-to-zero")
 	case "reweight":
 		if err := u.s.Reweight(op.Factor.F); err != nil {
 			return fmt.Sprintf("Reweight(%v) returned %v", op.Factor.F, err)
